@@ -51,6 +51,10 @@ def _concrete_len(n):
     return None
 
 
+_CUR = [None]       # the interpreter currently executing (for models that
+                    # need to branch but are called without it)
+
+
 def install(world):
     m = world.models
 
@@ -240,8 +244,23 @@ def install(world):
     reg('str', b_str)
 
     m_int_module = None
+    digits_fn = uf('conv.all_digits', z3.StringSort(), z3.BoolSort())
 
     def b_int(x=0):
+        if isinstance(x, (SStr, str)) and S.is_sym(x):
+            # T-conv: int(s) succeeds iff s is decimal digits and has at
+            # most 4300 of them (sys.get_int_max_str_digits)
+            it = _CUR[0]
+            ok = z3.And(digits_fn(x.t), z3.Length(x.t) >= 1,
+                        z3.Length(x.t) <= 4300)
+            world.trusted_used.add('T-conv: int(str) iff decimal digits, '
+                                   '<= 4300 of them')
+            if it is not None and not it.spec and not it.branch(ok):
+                it.raise_('ValueError', 'invalid literal for int()')
+            return SInt(z3.StrToInt(x.t))
+        return _b_int(x)
+
+    def _b_int(x=0):
         if isinstance(x, (SInt, int)) and not isinstance(x, bool):
             return x
         if isinstance(x, SBool):
@@ -406,6 +425,14 @@ def install(world):
     reg('object', ClassRef('object', (), 'builtins'))
     m['object'] = ClassRef('object', (), 'builtins')
     def b_float(x=0.0):
+        if isinstance(x, SStr):
+            world.trusted_used.add('T-conv: float(str) on digits[.digits]')
+            it = _CUR[0]
+            ok = uf('conv.float_ok', z3.StringSort(), z3.BoolSort())(x.t)
+            if it is not None and not it.spec and not it.branch(ok):
+                it.raise_('ValueError', 'could not convert string to float')
+            return SReal(uf('conv.str_to_float', z3.StringSort(),
+                            z3.RealSort())(x.t))
         if isinstance(x, (SReal, float)):
             return x
         if isinstance(x, (SInt, SBool, int)):
